@@ -83,6 +83,7 @@ func (in *Input) tags(w *World, first *GenResult) []string {
 	if c := in.class(); c != "" {
 		t = append(t, "class="+c)
 	}
+	t = append(t, in.wsTags()...)
 	if in.All {
 		t = append(t, "all")
 	}
@@ -519,9 +520,24 @@ func (prop) Generate(r *core.RNG, tr string) []json.RawMessage {
 	for _, in := range corner() {
 		out = append(out, marshal(in))
 	}
+	for _, in := range wsCorner() {
+		out = append(out, marshal(in))
+	}
 	n := 26
 	if tr == "thorough" {
 		n = 200
+	}
+	// go.work workspaces with imports across modules and entrypoints from several modules (seeded change C04-l)
+	nws := 8
+	if tr == "thorough" {
+		nws = 40
+	}
+	for i := 0; i < nws; i++ {
+		in := randomWorkspace(r)
+		if tr == "thorough" {
+			in.N = 24
+		}
+		out = append(out, marshal(in))
 	}
 	for i := 0; i < n; i++ {
 		var in *Input
@@ -611,7 +627,7 @@ func (prop) Shrink(raw json.RawMessage) []json.RawMessage {
 	// drop the last package when nothing refers to it
 	if n := len(in.Pkgs); n > 1 {
 		c := clone(&in)
-		last := dirOrDot(c.Pkgs[n-1].Dir)
+		last := dirOrDot(c.PkgDir(n - 1))
 		c.Pkgs = c.Pkgs[:n-1]
 		var e []string
 		for _, x := range c.Entry {
@@ -743,6 +759,27 @@ func (prop) Shrink(raw json.RawMessage) []json.RawMessage {
 		c := clone(&in)
 		c.Entry = c.Entry[:1]
 		add(c)
+	}
+	if len(in.Work) > 0 { // workspace inputs: one entrypoint less, one import less, two processes less
+		for k := range in.Entry {
+			if len(in.Entry) > 2 {
+				c := clone(&in)
+				c.Entry = append(c.Entry[:k], c.Entry[k+1:]...)
+				add(c)
+			}
+		}
+		for pi, p := range in.Pkgs {
+			for k := range p.Imports {
+				c := clone(&in)
+				c.Pkgs[pi].Imports = append(append([]int{}, p.Imports[:k]...), p.Imports[k+1:]...)
+				add(c)
+			}
+		}
+		if in.N > 2 {
+			c := clone(&in)
+			c.N = max(2, in.N-2)
+			add(c)
+		}
 	}
 	// every candidate costs N+3 fresh processes: keep the big steps and a sample of the small ones
 	if len(out) > 20 {
